@@ -13,5 +13,9 @@ func c04CommentMarshaler(layout string) string {
 var c04TimeMutants = []core.Mutant{
 	{Name: "x8-comment-date-hand-formatted-rfc3339", File: "changeset.go", Find: c04DiscussionDoc, Replace: c04CommentMarshaler("time.RFC3339"), ExpectRule: "X8", ExpectConstruct: "time@ChangesetComment.MarshalXML"},
 	{Name: "x8-comment-date-seconds-literal", File: "changeset.go", Find: c04DiscussionDoc, Replace: c04CommentMarshaler("\"2006-01-02T15:04:05Z\""), ExpectRule: "X8", ExpectConstruct: "time@ChangesetComment.MarshalXML"},
-	{Name: "x8-date-written-with-other-layout-than-read", File: "note.go", Find: "return e.EncodeElement(d.Format(dateLayout), start)", Replace: "const written = \"2006-01-02 15:04:05 -0700\"\n\treturn e.EncodeElement(d.Format(written), start)", ExpectRule: "X8", ExpectConstruct: "time@Date.MarshalXML"},
+	{Name: "x8-date-written-with-other-layout-than-read", File: "note.go", Find: "return e.EncodeElement(d.Format(\"2006-01-02 15:04:05.999999999 MST\"), start)", Replace: "const written = \"2006-01-02 15:04:05.999999999 -0700\"\n\treturn e.EncodeElement(d.Format(written), start)", ExpectRule: "X8", ExpectConstruct: "time@Date.MarshalXML"},
+	// e426c5e: Date.MarshalXML keeps the sub-second part; the shape before the repair formatted with the reader's layout
+	{Name: "old-shape-date-written-without-fraction", File: "note.go", Find: "return e.EncodeElement(d.Format(\"2006-01-02 15:04:05.999999999 MST\"), start)", Replace: "return e.EncodeElement(d.Format(dateLayout), start)", ExpectRule: "X8", ExpectConstruct: "time@Date.MarshalXML"},
+	{Name: "x8-date-written-with-millisecond-fraction", File: "note.go", Find: "return e.EncodeElement(d.Format(\"2006-01-02 15:04:05.999999999 MST\"), start)", Replace: "return e.EncodeElement(d.Format(\"2006-01-02 15:04:05.999 MST\"), start)", ExpectRule: "X8", ExpectConstruct: "time@Date.MarshalXML"},
+	{Name: "x8-date-fraction-not-after-seconds", File: "note.go", Find: "return e.EncodeElement(d.Format(\"2006-01-02 15:04:05.999999999 MST\"), start)", Replace: "return e.EncodeElement(d.Format(\"2006-01-02 15:04:05 MST .999999999\"), start)", ExpectRule: "X8", ExpectConstruct: "time@Date.MarshalXML"},
 }
